@@ -12,6 +12,10 @@
     stored directly is later emitted as raw UTF-8 bytes, which no reader decodes as text strings are
     defined (PDFDocEncoding or BOM-prefixed UTF-16BE).
  R2 the incremental writers route field values / note contents through an encoder of that kind.
+ R4 plain fast path: a function that encodes text either through a FE FF + UTF-16BE encoder or, on another path, returns
+    it without one (the usual "ASCII stays as it is" shortcut) takes the plain path only through the true edge of an
+    `is_ascii()` test: bytes 0x80..0xFF of a string without byte-order mark mean PDFDocEncoding to a reader, which is not
+    Latin-1 (0xA0 is the Euro sign, 0x80..0x9F are punctuation, "þÿ" is read as a byte-order mark).
  R3 the reader's text-string decoder recognises the FE FF mark the encoders emit.
 Not decided: equality of the decoded text; PDFDocEncoding fidelity of the non-BOM branch (C25).
 """
@@ -166,6 +170,39 @@ def run(ctx):
             ctx.violation("R2", "incremental_form_fill:value-encoder", "the incremental form filler has no text-string encoder (no FE FF "
                           "emitter in the module) although its sibling incremental_text_notes::pdf_text has one: a non-ASCII field value "
                           "is written as raw bytes", "writer::incremental_form_fill")
+    # R4 plain fast path of encoders
+    from .. import cfg as CF
+    n4 = 0
+    for fid, fn in sorted(facts.fns.items()):
+        if fn.kind == "Closure" or not fn.ret or "Vec<u8>" not in fn.ret and "String" not in fn.ret and "PdfString" not in fn.ret:
+            continue
+        owner = fid
+        if owner.startswith("verification::"):
+            continue
+        ecalls = [b for b, c, a, d, t, u in fn.calls() if isinstance(c, dict) and ((c.get("r") or "") in enc)
+                  and any(p in ("&str", "&std::string::String") for p in (facts.fns[c["r"]].params or []))]
+        if not ecalls or not any(p in ("&str", "&std::string::String") for p in (fn.params or [])):
+            continue
+        g = CF.cfg(fn)
+        rets = g.return_blocks()
+        if g.path(0, rets, avoid_blocks=ecalls) is None:
+            continue            # every path encodes
+        n4 += 1
+        edges = []
+        for b, c, a, d in L.calls_matching(fn, lambda c: L.short(c.get("p") or "") == "is_ascii"):
+            te, fe = L.bool_edges(fn, d[0])
+            edges += te
+        key = "%s:plain-path-is-ascii-only" % L.short(fid)
+        w = CF.must_pass(fn, rets, ecalls, guard_edges=edges)
+        if w is None:
+            ctx.ok("R4", key, "the path that skips the UTF-16BE encoder is taken only when is_ascii() holds", fn.where())
+        else:
+            ctx.violation("R4", key, "%s returns text without the FE FF + UTF-16BE encoding on a path that is not restricted to ASCII "
+                          "(no `is_ascii()` true edge on it): the bytes 0x80..0xFF of a text string without byte-order mark are "
+                          "PDFDocEncoding to every reader, not Latin-1 — U+00A0 reads back as the Euro sign, U+0085 as an ellipsis, "
+                          "and a value starting with `þÿ` is taken for a byte-order mark" % L.short(fid), fn.where(w[-1] if w else None),
+                          {"path_lines": [fn.line(x) for x in w][:10]})
+    ctx.floor("R4", "text-string encoders with a plain fast path", n4, 1)
     # R3 decoder
     dec = [f for f in facts.fns.values() if ("decode_text_string" in f.id or "PdfString::to_text" in f.id or "decode_pdf_string" in f.id) and f.kind != "Closure"]
     if ctx.floor("R3", "text-string decoders", len(dec), 1):
